@@ -217,6 +217,8 @@ pub fn family(name: &str, n: usize) -> String {
         "deep" => { let d = n; let mut s = String::from("C"); for _ in 0..d { s.push_str("(C") } for _ in 0..d { s.push(')') } s }
         "brackets" => "[13CH2]".repeat(n),
         "nested8" => { let unit = "C(C(C(C(C(C(C(C(C))))))))"; unit.repeat(n / 9) }
+        "dots_in_branch" => format!("C({})C", ".C".repeat(n)),
+        "chain_dot_branch" => format!("{}(C.C)C", "C".repeat(n.max(2) - 1)),
         "dot_branches" => format!("*{}C(=O)N", "(.O)".repeat(n)),
         "macrocycle" => format!("C1{}1", "C".repeat(n.max(3) - 1)),
         "macro2" => format!("CC2CCCC2{}C1CCCCC1", "C".repeat(n.max(15) - 14)),
